@@ -11,24 +11,26 @@ extern real_t FN(langs)(char *, SuperMatrix *);
 #define VPAD 8
 typedef struct { val_t *raw; val_t *v; int len, inc; long rawlen; } vec_t;
 static TLS vec_t VX, VY, VC;
+/* position of logical element i: BLAS convention, a negative increment traverses the array backwards */
+static long vpos(const vec_t *V, int i) { return V->inc >= 0 ? (long)i * V->inc : (long)(V->len - 1 - i) * (-(long)V->inc); }
 static void vec_set(vec_t *V, char *s)
 {
-    /* vec <len> <inc> values...  : logical length len, stride inc (> 0) */
-    int len = (int)rdint(&s), inc = (int)rdint(&s);
+    /* vec <len> <inc> values...  : logical length len, stride inc (negative: stored backwards) */
+    int len = (int)rdint(&s), inc = (int)rdint(&s); long ainc = inc < 0 ? -(long)inc : inc;
     free(V->raw);
-    V->len = len; V->inc = inc; V->rawlen = (long)(len > 0 ? (len - 1) * inc + 1 : 0) + 2 * VPAD;
+    V->len = len; V->inc = inc; V->rawlen = (long)(len > 0 ? (len - 1) * ainc + 1 : 0) + 2 * VPAD;
     V->raw = malloc((V->rawlen + 1) * sizeof(val_t));
     for (long i = 0; i < V->rawlen; i++) MKVAL(V->raw[i], -555.0, 555.0);
     V->v = V->raw + VPAD;
-    for (int i = 0; i < len; i++) { double re = rdnum(&s), im = 0; if (NCOMP == 2) im = rdnum(&s); MKVAL(V->v[(long)i * inc], re, im); }
+    for (int i = 0; i < len; i++) { double re = rdnum(&s), im = 0; if (NCOMP == 2) im = rdnum(&s); MKVAL(V->v[vpos(V, i)], re, im); }
 }
 static uint64_t vec_outside_digest(const vec_t *V)
 {
     /* digest of every element that is not one of the len logical entries */
-    uint64_t h = 99;
+    uint64_t h = 99; long ainc = V->inc < 0 ? -(long)V->inc : V->inc;
     for (long i = 0; i < V->rawlen; i++) {
         long k = i - VPAD;
-        int logical = k >= 0 && V->inc > 0 && k % V->inc == 0 && k / V->inc < V->len;
+        int logical = k >= 0 && ainc > 0 && k % ainc == 0 && k / ainc < V->len;
         if (!logical) h = h * 1099511628211ULL ^ fnv(&V->raw[i], sizeof(val_t));
     }
     return h;
@@ -36,7 +38,7 @@ static uint64_t vec_outside_digest(const vec_t *V)
 static void vec_json(const char *key, const vec_t *V)
 {
     fprintf(OUT, ",\"%s\":[", key);
-    for (int i = 0; i < V->len; i++) { if (i) fputc(',', OUT); jval(V->v[(long)i * V->inc]); }
+    for (int i = 0; i < V->len; i++) { if (i) fputc(',', OUT); jval(V->v[vpos(V, i)]); }
     fputc(']', OUT);
 }
 
@@ -254,7 +256,7 @@ static void call_gemv(char *args)
     val_t alpha, beta; MKVAL(alpha, ar, ai); MKVAL(beta, br, bi);
     c->ledger_mark = slu_v_mark();
     uint64_t da = fnv(c->a, c->nnz * sizeof(val_t)), dxo = fnv(VX.raw, VX.rawlen * sizeof(val_t)), dyo = vec_outside_digest(&VY);
-    val_t *y0 = malloc((VY.len + 1) * sizeof(val_t)); for (int i = 0; i < VY.len; i++) y0[i] = VY.v[(long)i * VY.inc];
+    val_t *y0 = malloc((VY.len + 1) * sizeof(val_t)); for (int i = 0; i < VY.len; i++) y0[i] = VY.v[vpos(&VY, i)];
     int ret = SPFN(gemv)(t, alpha, &c->A, VX.v, VX.inc, beta, VY.v, VY.inc);
     common_head("gemv", c);
     fprintf(OUT, ",\"trans\":\"%s\",\"ret\":%d,\"incx\":%d,\"incy\":%d,\"alpha\":", t, ret, VX.inc, VY.inc); jval(alpha); fputs(",\"beta\":", OUT); jval(beta);
